@@ -142,7 +142,13 @@ contract(P + '_parse_annotations',
                                   "implies(I1 == 0, prev_char == '' and i == 0)",
                                   '0 <= start_pos and start_pos <= I1 and 0 <= end_pos and end_pos <= I1',
                                   'LOGGER._warning_count >= old(LOGGER._warning_count)',
-                                  ]}},
+                                  ],
+                    'post': [
+                        # C10.annotations.part_ends_only_at_a_visible_character_outside_parentheses: the scan of the annotation
+                        # groups stops (break) only at a character that is outside all parentheses and is neither white space
+                        # (blank, TAB ...) nor a parenthesis; otherwise it runs to the end of the text
+                        "implies(I1 < len(fields), parens_level == 0 and not fields[I1].isspace() and "
+                        "fields[I1] != '(' and fields[I1] != ')')"]}},
          ensures={
              'C11.annotations.failure_returns_nothing': 'implies(not result[0], result[1] is None)',
              'C11.annotations.failure_is_diagnosed':
